@@ -31,7 +31,7 @@ manifest = dict(
     hooks=dict(
         guard="PY_TDGL_VERIF",
         enable="no source hooks: checks import tdgl from /repo's working tree (PYTHONPATH=/repo) and wrap public methods from the harness; the guard variable is exported by ./check but read by nothing in the repository",
-        baseline_off_cmd="cd /repo && /venv/bin/python -m pytest -ra -q -p no:cacheprovider --timeout=900 --continue-on-collection-errors",
+        baseline_off_cmd="cd /repo && /venv/bin/python -m pytest -ra -q -p no:cacheprovider --timeout=900 --continue-on-collection-errors --junitxml=<file>",
         source_commits=[],
         add_only=True,
     ),
